@@ -299,6 +299,11 @@ func (w *Walker) apply(st *State, n ast.Node) {
 		for _, lhs := range x.Lhs {
 			w.kill(st, lhs)
 		}
+		if len(x.Lhs) == len(x.Rhs) && (x.Tok == token.ASSIGN || x.Tok == token.DEFINE) {
+			for i, lhs := range x.Lhs {
+				w.learn(st, lhs, x.Rhs[i])
+			}
+		}
 	case *ast.IncDecStmt:
 		w.kill(st, x.X)
 	case *ast.DeclStmt:
@@ -308,6 +313,11 @@ func (w *Walker) apply(st *State, n ast.Node) {
 					for _, name := range vs.Names {
 						w.kill(st, name)
 					}
+					if len(vs.Names) == len(vs.Values) {
+						for i, name := range vs.Names {
+							w.learn(st, name, vs.Values[i])
+						}
+					}
 				}
 			}
 		}
@@ -316,6 +326,68 @@ func (w *Walker) apply(st *State, n ast.Node) {
 			w.kill(st, x)
 		}
 	}
+}
+
+// learn records what an assignment `lhs = rhs` to a local variable establishes: nilness for a nil
+// literal or a value that is never nil (fresh allocation, error constructor), truth for a boolean
+// literal. Later branches that contradict it are infeasible (a helper inlined as
+// `err = nil; break` followed by `if err != nil` needs this).
+func (w *Walker) learn(st *State, lhs, rhs ast.Expr) {
+	id, ok := Unparen(lhs).(*ast.Ident)
+	if !ok || id.Name == "_" {
+		return
+	}
+	v, _ := ObjOf(w.Info, id).(*types.Var)
+	if v == nil || v.IsField() || v.Pkg() == nil || v.Parent() == v.Pkg().Scope() {
+		return
+	}
+	rhs = Unparen(rhs)
+	if VarsIn(w.Info, rhs)[v] {
+		return
+	}
+	nilID := func() *ast.Ident {
+		n := &ast.Ident{Name: "nil", NamePos: rhs.Pos()}
+		w.Info.Uses[n] = types.Universe.Lookup("nil")
+		return n
+	}
+	switch {
+	case IsNil(w.Info, rhs):
+		w.assume(st, &ast.BinaryExpr{X: id, Op: token.EQL, OpPos: rhs.Pos(), Y: nilID()}, true)
+	case NeverNil(w.Info, rhs):
+		w.assume(st, &ast.BinaryExpr{X: id, Op: token.EQL, OpPos: rhs.Pos(), Y: nilID()}, false)
+	default:
+		if b, isB := ObjOf(w.Info, rhs).(*types.Const); isB && b.Parent() == types.Universe && (b.Name() == "true" || b.Name() == "false") {
+			w.assume(st, id, b.Name() == "true")
+		}
+	}
+}
+
+// NeverNil recognises expressions whose value cannot be nil.
+func NeverNil(info *types.Info, e ast.Expr) bool {
+	switch x := e.(type) {
+	case *ast.UnaryExpr:
+		_, isLit := Unparen(x.X).(*ast.CompositeLit)
+		return x.Op == token.AND && isLit
+	case *ast.FuncLit:
+		return true
+	case *ast.CallExpr:
+		switch obj := Callee(info, x).(type) {
+		case *types.Builtin:
+			return obj.Name() == "new" || obj.Name() == "make"
+		case *types.Func:
+			if obj.Pkg() == nil {
+				return false
+			}
+			switch obj.Pkg().Path() + "." + obj.Name() {
+			case "errors.New", "fmt.Errorf":
+				return true
+			}
+			if sig, ok := obj.Type().(*types.Signature); ok && sig.Recv() == nil && (obj.Name() == "errorf" || obj.Name() == "NewError") {
+				return true
+			}
+		}
+	}
+	return false
 }
 
 func (w *Walker) kill(st *State, lhs ast.Expr) {
